@@ -778,6 +778,16 @@ def migrate_v0_to_v1(old_config_dir, skip_confirm=False):
 
         new_config = os.path.join(tally_dir, 'config')
 
+        # A destination that is already there (say ./tally/config from an earlier `tally init`)
+        # would take the moved directory in as a sub-directory (tally/config/config): refuse
+        # rather than nest the budget where no command finds it again
+        clashes = [d for d in ('data', 'output', 'config')
+                   if os.path.isdir(os.path.abspath(d)) and os.path.exists(os.path.join(tally_dir, d))]
+        if clashes:
+            print(f"Error during migration: ./tally/ already contains {', '.join(clashes)}/ - "
+                  f"move or merge it by hand, then run again", file=sys.stderr)
+            return None
+
         # Move data and output directories if they exist. They go first: as long as
         # ./config is still in place an interrupted migration is simply picked up
         # again by the next run, which finds the remaining directories and moves them.
